@@ -127,7 +127,7 @@ def main(tier_: str) -> int:
             with da.app.test_request_context('/'):
                 for hv in (None, 4.0, 4.1, 4.2, 4.3):
                     for nk in (1, 2, 3):
-                        for la in (la_urls if tier_ == 'thorough' else rng.sample(la_urls, 2)):
+                        for la in (la_urls if tier_ == 'thorough' else la_urls[:1] + rng.sample(la_urls[1:], 1)):      # the '&' URL always
                             ks = rng.sample(kids[-8:], nk)
                             # the default key id (first of ks) takes every position of the key set: 4.0 / 4.1 headers
                             # name only the default key and must carry that key's checksum
